@@ -13,6 +13,7 @@ import numpy as np
 
 from fsmc import bases, tissue as T, fsutil, solvecase as SC, pairs
 from fsmc.ref import nnls as RN
+from fsmc.explorer import ListSystem
 
 PID = "C06"
 RULE = ("states = (tissue, chain of similarity transforms up to the depth bound); transitions = one group element; "
@@ -22,9 +23,10 @@ BOUND = {"quick": "3 tissues (equilibrium, deformed, seeded) x both fits; 13 tra
 ASSUMPTIONS = ["tensions / pressures are only compared where the non-negative optimum is unique in both poses",
                "coefficient tolerance: 1e-7 (taubinSVD); dlite: 1e-7 x (1 + 30 x translation in tissue sizes) on exact arcs, 1e-3 on deformed interfaces (leastsq termination); dlite beyond 1e2 tissue sizes is finding F8; tensions: 1e-9 x conditioning + 10 x coefficient deviation x conditioning",
                "dynamic tolerance: 3 x (5e-4 sqrt(rows)) / sigma_min of the augmented system (3-decimal rounding of the velocity term)"]
-REQUIRED_TAGS = {"all": ["translate", "rotate", "reflect", "scale", "compared", "pressures_compared", "dynamic_time", "dynamic_length", "noisy", "far_translation"]}
+REQUIRED_TAGS = {"all": ["translate", "rotate", "reflect", "scale", "compared", "pressures_compared", "dynamic_time", "dynamic_length", "noisy", "far_translation", "inplace_translation"]}
 
 FITS = ["dlite", "taubinSVD"]
+TRS = [(1, 0), (0, 1), (-3, 2), (0.01, -0.02), (1e2, 0), (-39.8, 18.8), (1e3, -1e3), (10, -10), (0, -1e2), (70, 70), (1e4, 0), (0, 1e4), (-7e3, 7e3)]
 
 
 def group_elements(nrot, at, seed):
@@ -411,10 +413,95 @@ class Units:
         return [], []
 
 
+# ---------------------------------------------------------------- translations applied to LIVE objects
+def physical(r):
+    jid_of = {vid: j for j, vid in r.info["jvid"].items()}
+    rows = sorted((jid_of.get(v, "v%s" % v), row) for v, row in r.fm.map_vid_to_row.items())
+    order = sorted(range(len(r.cols)), key=lambda n: (r.cols[n] is None, r.cols[n]))
+    return ([r.cols[n] for n in order], [j for j, _ in rows],
+            np.array([[float(r.M[row + c, n]) for n in order] for _, row in rows for c in (0, 1)], float).reshape(2 * len(rows), len(order)),
+            {str(ii): float(x) for ii, x in zip(r.cols, r.forces)})
+
+
+def eval_inplace(d):
+    """solve, translate every vertex of the SAME frame (what ForSys(cm=True) does to the frames it is given), build and solve
+    again on the same objects; the result must equal that of objects freshly built from the translated coordinates"""
+    base, mobspec, noise = d["tissue"]
+    at = bases.get(base)
+    ext = SC.extent_of(at)
+    cm = SC.make_cmap(mobspec, 0.0, (0, 0), 1.0, ext)
+    inner = SC.noise_post(noise, 2) if noise else None
+    dx, dy = float(d["tr"][0] * ext), float(d["tr"][1] * ext)
+    fit = d["fit"]
+    tags = ["inplace_translation"] + (["noisy"] if noise else [])
+
+    def moved(jpos, ipts):
+        if inner is not None:
+            jpos, ipts = inner(jpos, ipts)
+        mv = lambda z: complex(float(z.real) + dx, float(z.imag) + dy)
+        return {j: mv(z) for j, z in jpos.items()}, [[mv(z) for z in pts] for pts in ipts]
+    live = SC.solve_static(at, k=3, cmap=cm, fit=fit, post=inner, allow_negatives=False)
+    fresh = SC.solve_static(at, k=3, cmap=cm, fit=fit, post=moved, allow_negatives=False)
+    cls = "%s/%s/%s" % (base, fit, d["tr"])
+    if live.exc is not None:
+        return {"viol": [], "tags": tags + ["first_solve_raised"], "cls": cls + "/exc"}
+    for v in live.frame.vertices.values():
+        v.x += dx
+        v.y += dy
+    s = live.forsys
+    _, ex = fsutil.call(s.build_force_matrix, when=0, circle_fit_method=fit, angle_limit=np.inf, metadata={})
+    if ex is None:
+        _, ex = fsutil.call(s.solve_stress, when=0, allow_negatives=False)
+    if (ex is None) != (fresh.exc is None):
+        return {"viol": [{"what": "after translating the vertices of an already solved frame, inference raises although fresh objects at the new position do not (or vice versa)",
+                          "detail": {"live": fsutil.exc_str(ex) if ex else None, "fresh": fsutil.exc_str(fresh.exc) if fresh.exc else None}}], "tags": tags, "cls": cls}
+    if ex is not None:
+        return {"viol": [], "tags": tags + ["both_raise"], "cls": cls + "/exc"}
+    live.fm = s.force_matrices[0]
+    live.M = np.array(live.fm.matrix, float)
+    live.forces = [float(s.forces[0][i]) for i in range(len(s.forces[0]))]
+    live.cols = SC.column_interfaces(live.frame, live.fm, live.info, at)
+    c1, j1, M1, t1 = physical(live)
+    c2, j2, M2, t2 = physical(fresh)
+    viol = []
+    if c1 != c2 or j1 != j2:
+        viol.append({"what": "after translating the vertices of an already solved frame the set of interfaces / equations differs from fresh objects at the new position"})
+    else:
+        dM = float(np.max(np.abs(M1 - M2))) if M1.size else 0.0
+        dT = max([abs(t1[k] - t2[k]) for k in t1] or [0.0])
+        tags.append("compared")
+        if dM > 1e-9:
+            viol.append({"what": "after translating the vertices of an already solved frame the assembled coefficients differ from those of fresh objects at the new position",
+                         "detail": {"max_diff": dM, "translation": [dx, dy], "fit": fit}})
+        elif dT > 1e-7 and dM == 0.0:
+            viol.append({"what": "after translating the vertices of an already solved frame the tensions differ from those of fresh objects with identical equations",
+                         "detail": {"max_diff": dT}})
+        elif dT <= 1e-9:
+            for r_ in (live, fresh):
+                _, e1 = fsutil.call(r_.forsys.build_pressure_matrix, when=0)
+                if e1 is None:
+                    _, e1 = fsutil.call(r_.forsys.solve_pressure, when=0, method="lagrange_pressure")
+                r_.pexc = e1
+            if (live.pexc is None) != (fresh.pexc is None):
+                viol.append({"what": "pressure step raises on the translated live objects only (or on the fresh ones only)"})
+            elif live.pexc is None:
+                tags.append("pressures_compared")
+                inv = {fid: cid for cid, fid in live.info["cellid"].items()}
+                p1 = {inv[c]: float(x.pressure) for c, x in live.frame.cells.items()}
+                inv2 = {fid: cid for cid, fid in fresh.info["cellid"].items()}
+                p2 = {inv2[c]: float(x.pressure) for c, x in fresh.frame.cells.items()}
+                dp = max(abs(p1[k] - p2[k]) for k in p1)
+                if dp > 1e-7 * max(1.0, max(abs(x) for x in p2.values())):
+                    viol.append({"what": "after translating the vertices of an already solved frame the pressures differ from those of fresh objects at the new position", "detail": {"max_diff": dp}})
+    return {"viol": viol, "tags": tags, "cls": cls, "nontrivial": True}
+
+
 def build(tier, seed):
     M = ["m", 0.05, 0.02]
     if tier == "quick":
         ts = [["v5x5", M, 0.0], ["v5x5", M, 0.05], ["v6x5p%d" % (seed + 1), ["id"], 0.0]]
-        return [_PosesCounting(ts, 2, 6, seed), Units([["v5x5", M, 0.0], ["v5x5", M, 0.06]])]
+        inpl = [{"tissue": t, "tr": tr, "fit": f} for t in ts for tr in TRS[:7] for f in FITS]
+        return [_PosesCounting(ts, 2, 6, seed), Units([["v5x5", M, 0.0], ["v5x5", M, 0.06]]), ListSystem("in-place-translations", inpl, eval_inplace)]
     ts = [["v5x5", M, 0.0], ["v5x5", M, 0.05], ["v6x5", ["mc", 0.12, 0.05], 0.0], ["v6x6", ["id"], 0.04], ["v6x5p%d" % (seed + 1), ["id"], 0.0], ["v7x6", M, 0.02]]
-    return [_PosesCounting(ts, 3, 24, seed), Units([["v5x5", M, 0.0], ["v5x5", M, 0.06], ["v6x5", M, 0.0], ["v6x6", ["id"], 0.05]])]
+    inpl = [{"tissue": t, "tr": tr, "fit": f} for t in ts for tr in TRS for f in FITS]
+    return [ListSystem("in-place-translations", inpl, eval_inplace), _PosesCounting(ts, 3, 24, seed), Units([["v5x5", M, 0.0], ["v5x5", M, 0.06], ["v6x5", M, 0.0], ["v6x6", ["id"], 0.05]])]
